@@ -198,6 +198,9 @@ class SDFS(SubFS):
     download = FS.download
     copy = FS.copy
     move = FS.move
+    copydir = FS.copydir
+    movedir = FS.movedir
+    readtext = FS.readtext
 
     def getmeta(self, namespace: str = 'standard') -> 'Mapping[str, object]':
         meta = dict(super().getmeta(namespace))
